@@ -171,7 +171,7 @@ example : ∃ d', normWfList inlEx dEx = .ok d' ∧ normWfList inlEx d' = .ok d'
 
 /-- "the same definition (tasks, transitions, …)": for every on-clause form the schema accepts, the
     specification's `get_next()` targets are exactly the targets written.  (Was `_partial` with the
-    guarded single dict excluded and a `_full_fails` witness until repo fix PENDING-08; the witness
+    guarded single dict excluded and a `_full_fails` witness until repo fix e74e4242; the witness
     `on-success: {t1: <% $.x %>}` is now the regression corpus/C14/26-*.json.) -/
 theorem nextOf_written (c : OnClause) : c.nextOf = c.written := by
   cases c <;> simp [OnClause.nextOf, OnClause.written]
